@@ -19,7 +19,7 @@ theorem no_up_dead (c : Cfg) (ar aq : Nat) (s : S) (b : Base c ar aq s)
 theorem finish_plain (c : Cfg) (ar aq : Nat) (s : S) (b : Base c ar aq s) (hrun : s.running = true) (hcl : s.cleaned = false)
     (h3 : K3 s) (h6 : K6 s) (hpd : s.procDone = false) (hsr : s.setupRetry = false) (hdir : s.direct = false)
     (hpass : s.upReset = true → s.pass = 0 ∧ s.respStarted = false)
-    (h27 : s.upReset = true → c.oneway = true → s.urr = true → s.upReset = true ∨ (s.resp.isSome = true ∧ liveCount s.streams = 0))
+    (h27 : s.upReset = true → c.oneway = true → s.urr = true → s.upReset = true ∨ (s.resp.isSome = true ∧ (liveCount s.streams = 0 ∨ respHasMore s.resp = true)))
     (hfw : s.upReset = true → c.oneway = false →
       s.up.isSome = true ∧ s.rs.isSome = true ∧ liveCount s.streams = 0 ∧ s.phase ≠ .UpFilter ∧
       (s.reqSent = true → s.global = true ∨ s.globalExpired = true))
@@ -57,7 +57,7 @@ theorem finish_direct (c : Cfg) (ar aq : Nat) (s : S) (b : Base c ar aq s) (hrun
     (hur : s.upReset = false) (hpass : s.pass = 0) (hheld : rsHeld s = false) (hlc : liveCount s.streams = 0)
     (hresp : s.resp.isSome = true) (hpt : s.perTry = false) (hgt : s.global = false) (hrst : s.respStarted = false)
     (hph : s.phase ≠ .UpFilter)
-    (h27 : s.urr = true → s.upReset = true ∨ (s.resp.isSome = true ∧ liveCount s.streams = 0)) :
+    (h27 : s.urr = true → s.upReset = true ∨ (s.resp.isSome = true ∧ (liveCount s.streams = 0 ∨ respHasMore s.resp = true))) :
     Inv c ar aq (finishPhase c s) := by
   rw [finishPhase_eq, processError_spec]
   simp only [hcl, hur, Bool.false_eq_true, if_false]
@@ -95,6 +95,74 @@ theorem finish_direct_gen (c : Cfg) (ar aq : Nat) (s : S) (b : Base c ar aq s) (
     rw [if_neg (by simp [how]), if_pos hph]
     exact tail_direct_gen c ar aq s b hrun hcl how h3 h6 hpd hsr hpass hlc hresp hur hpt hgt hrst
 
+/-- an upstream reset is seen after the response has started going downstream (the rest of a streamed response was
+still in flight): the regenerated gate refuses the retry, the timers are stopped, the DOWNSTREAM stream is reset — the
+client sees the head and then a reset, never a second response — and the stream is cleaned -/
+theorem finish_started (c : Cfg) (ar aq : Nat) (s : S) (b : Base c ar aq s) (hcl : s.cleaned = false)
+    (how : c.oneway = false) (h3 : K3 s) (h6 : K6 s) (hpd : s.procDone = false) (hur : s.upReset = true)
+    (hrst : s.respStarted = true) (hlc : liveCount s.streams = 0) :
+    Inv c ar aq (finishPhase c s) := by
+  rw [finishPhase_eq, processError_spec]
+  simp only [hcl, hur, how, Bool.false_eq_true, if_false, if_true]
+  have hgate : Gen.ProxyReset.retryGate s.resetReason (resetFlags c s) = false := by
+    rw [retryGate_eq]; simp [hrst]
+  have e1 : onUpstreamReset c s = resetDownstream c (cleanUp c s) := by
+    unfold onUpstreamReset
+    simp only [hgate, Bool.false_eq_true, if_false]
+    unfold onUpstreamResetFinish
+    simp only [resetNotReply_eq, cleanUp_respStarted, hrst, if_true]
+  rw [e1]
+  have hcu := cleanUp_facts c s
+  have hopen : (snd s.trace).ended = false ∧ (snd s.trace).reset = false := by
+    constructor
+    · cases he : (snd s.trace).ended with
+      | false => rfl
+      | true => have := h3 (Or.inl he); rw [hcl] at this; cases this
+    · cases he : (snd s.trace).reset with
+      | false => rfl
+      | true => have := h3 (Or.inr he); rw [hcl] at this; cases this
+  -- the state after `resetStream()`: upstream processing marked done, the downstream stream reset
+  have key : ∀ g : S, g.cleaned = false → g.procDone = true → g.downReset = true → g.trace = s.trace ++ [Ev.dr] →
+      g.respStarted = s.respStarted → g.streams = s.streams → g.requests = s.requests → g.upActive = s.upActive →
+      g.up = s.up → g.downActive = s.downActive → g.rs = (cleanUp c s).rs → g.retries = (cleanUp c s).retries →
+      Inv c ar aq (finishOf (peTail c g true)) := by
+    intro g g_cl g_pd g_dr g_tr g_rst g_st g_rq g_ua g_up g_da g_rs g_ret
+    have hb : Base c ar aq g := by
+      obtain ⟨k1, k2, k4, k9, k10, k11, k12, k13, k14, k20, k21, k22, k31⟩ := b
+      refine ⟨?_, ?_, ?_, ?_, ?_, ?_, ?_, ?_, ?_, ?_, ?_, ?_, ?_⟩
+      · simp only [K1, g_tr, snd_append, sndStep, hopen.1, hopen.2, Bool.or_false]; exact k1
+      · simp only [K2, g_tr, snd_append, sndStep, g_rst]; exact k2
+      · simp only [K4, g_tr, nLog_append, isLog, g_cl]; simpa [K4, hcl] using k4
+      · have e : heldRetry c g = heldRetry c (cleanUp c s) := by unfold heldRetry rsHeld; rw [g_rs]
+        have := hcu.2.2.1
+        simp only [K9] at k9 ⊢
+        rw [e, g_ret]; omega
+      · simpa [K10, heldRequests, g_rq, g_st] using k10
+      · simpa [K11, g_ua, g_st] using k11
+      · simpa [K12, g_da, g_cl, hcl] using k12
+      · intro hh; rw [g_cl] at hh; cases hh
+      · simpa [K14, streamsOk, g_st, g_up] using k14
+      · simpa [K20, g_st] using k20
+      · intro hh; rw [how] at hh; cases hh
+      · simpa [K22, g_st] using k22
+      · intro hh; rw [g_up]; apply k31; rw [g_rs, hcu.1] at hh; exact hh
+    have : peTail c g true = (dsResetStream c g, some .End) := by unfold peTail; rw [if_pos g_dr]
+    rw [this]
+    exact tail_down c ar aq g hb g_cl g_dr (fun _ => by rw [g_st]; exact hlc)
+  unfold resetDownstream
+  simp only [how, cleanUp_procDone, hpd, Bool.not_false, Bool.and_self, if_true]
+  cases hdl : s.downLive with
+  | true =>
+    simp only [cleanUp_downLive, hdl, if_true]
+    apply key <;> simp [dsOnResetStream, hcl]
+  | false =>
+    simp only [cleanUp_downLive, hdl, Bool.false_eq_true, if_false]
+    have hdr : s.downReset = true := by
+      rcases h6 hdl with h | h
+      · exact h
+      · rw [hcl] at h; cases h
+    apply key <;> simp [hcl, hdr]
+
 /-- the end of a phase whose body kept the invariant (and is not the one-way clean phase) -/
 theorem finish_inv (c : Cfg) (ar aq : Nat) (s : S) (h : Inv c ar aq s) (hrun : s.running = true)
     (hnw : s.phase ≠ .WaitNotify) (hph : s.phase = .Oneway → c.oneway = false)
@@ -111,13 +179,23 @@ theorem finish_inv (c : Cfg) (ar aq : Nat) (s : S) (h : Inv c ar aq s) (hrun : s
     | true => have := h.k5 hp; rw [hcl] at this; cases this
   have hsr := (h.k7 hcl).1
   have hdir : s.direct = false := not_direct_of_phase h.k7 hcl hnw
-  -- a pending upstream reset can only be seen while forwarding
+  -- a pending upstream reset is seen while forwarding, or while the rest of a streamed response is awaited
+  by_cases hstarted : s.upReset = true ∧ upPhase s.phase = true
+  · obtain ⟨hur, hupp⟩ := hstarted
+    obtain ⟨_, _, hwhere, _, hrst, _, _⟩ := h.k15 hcl hupp
+    have hrst' : s.respStarted = true := by
+      rw [hrst]; rcases hwhere hur with hp | hp <;> simp [hp]
+    have how : c.oneway = false := by
+      cases ho : c.oneway with
+      | false => rfl
+      | true => have := (h.k32 hcl ho).1; rw [hupp] at this; cases this
+    exact finish_started c ar aq s h.base hcl how h.k3 h.k6 hpd hur hrst' (h.k23 hcl (Or.inl hur))
   have hfwd : s.upReset = true → fwdPhase s.phase = true := by
     intro hur
     rcases phase_cases s.phase with hp | hp | hp | hp
     · have := (h.k17 hcl hp).2.2.2.2.1; rw [hur] at this; cases this
     · exact hp
-    · have := (h.k15 hcl hp).2.2.1; rw [hur] at this; cases this
+    · exact absurd ⟨hur, hp⟩ hstarted
     · exact absurd hp (h.k19 hcl)
   have hmain : s.upReset = true → s.up.isSome = true ∧ s.rs.isSome = true := by
     intro hur
